@@ -21,6 +21,8 @@ func main() {
 	verif := flag.String("verif", "", "verif directory (default: directory above the binary)")
 	replay := flag.String("replay", "", "replay file written by a previous run")
 	list := flag.Bool("list", false, "list properties")
+	ctlOnly := flag.Bool("controls", false, "run only the controls of the property (development aid)")
+	ctlName := flag.String("control", "", "with -controls: run only this control")
 	flag.Parse()
 	if *verif == "" {
 		exe, _ := os.Executable()
@@ -43,6 +45,30 @@ func main() {
 		os.Exit(2)
 	}
 	rep := run(*prop, *tier, *repo)
+	if *tier == "thorough" || *ctlOnly {
+		base := map[string]bool{}
+		for _, o := range rep.Obls {
+			if o.Verdict == core.Violated {
+				base[o.Key()] = true
+			}
+		}
+		res := runControls(*prop, *repo, *verif, *ctlName, base)
+		nok, nskip := 0, 0
+		for _, r := range res {
+			fmt.Printf("  control %-9s %-50s %s  %s\n", r.Kind, r.Name, r.Status, r.Detail)
+			switch r.Status {
+			case "ok":
+				nok++
+			case "skipped":
+				nskip++
+			default:
+				rep.Errorf("CONTROL %s (%s) did not behave as recorded: %s", r.Name, r.Kind, r.Detail)
+			}
+			rep.Notes = append(rep.Notes, fmt.Sprintf("control %s (%s): %s - %s", r.Name, r.Kind, r.Status, r.Detail))
+		}
+		rep.Count("controls ok", nok)
+		rep.Count("controls skipped (anchor text changed)", nskip)
+	}
 	os.Exit(rep.Finish(*verif))
 }
 
